@@ -274,3 +274,74 @@ c.loop(0, index='i', invariants=[
     ('prefix-kept', "cookie.startswith((attributes['name'] if 'name' in attributes else 'io') + "
      "'=' + sid)")], modifies=['cookie', 'attribute', 'value'])
 c.note('callable attribute values of a dict cookie configuration are not modelled')
+
+# ------------------------------------------------------------------------ constructor (C11, C12)
+# The configuration the other contracts read (ping timing, limits, the session table, the enabled
+# transports) is established here.  Driver selection (importlib over async_drivers), the logger
+# set-up and the process-wide JSON module switch are driver / logging glue and are abstract
+# regions: nothing a property observes is computed there.
+c = REG.contract('base_server.BaseServer.__init__', props=['C11', 'C12'])
+c.param('self', Ref('BaseServer')).param('async_mode', [NONE, STR])
+c.param('ping_interval', [REAL, Ty('tup', REAL, REAL)]).param('ping_timeout', REAL)
+c.param('max_http_buffer_size', INT).param('allow_upgrades', BOOL)
+c.param('http_compression', BOOL).param('compression_threshold', INT)
+c.param('cookie', ANY).param('cors_allowed_origins', ANY).param('cors_credentials', BOOL)
+c.param('logger', ANY).param('json', ANY).param('async_handlers', BOOL)
+c.param('monitor_clients', [NONE, BOOL]).param('transports', [NONE, STR, List(STR)])
+c.param('kwargs', Dict(STR, ANY))
+for _pat, _why in (
+        ('if json is not None:', 'process-wide JSON module switch (Packet.json; C01 assumes the '
+         'standard module)'),
+        ('if not isinstance(logger, bool):', 'logger set-up (logging only)'),
+        ('modes = self.async_modes()', 'driver selection'),
+        ('if async_mode is not None:', 'driver selection'),
+        ('self._async = None', 'driver selection'),
+        ('self.async_mode = None', 'driver selection'),
+        ('for mode in modes:', 'driver selection (importlib over engineio.async_drivers)'),
+        ('if self.async_mode is None:', 'driver selection: no usable driver'),
+        ('if self.is_asyncio_based() and', 'driver selection: asyncio compatibility'),
+        ('if not self.is_asyncio_based() and', 'driver selection: asyncio compatibility'),
+        ("self.logger.info('Server initialized for %s.',", 'logging only')):
+    c.abstract(_pat, _why)
+c.may_raise('ValueError', 'transports is not None', label='no-valid-transport-given',
+            props=['C12'])
+c.ensures('timing-as-configured',
+          'self.ping_timeout == ping_timeout and '
+          'self.ping_interval == (ping_interval[0] if isinstance(ping_interval, tuple) '
+          'else ping_interval) and '
+          'self.ping_interval_grace_period == (ping_interval[1] if '
+          'isinstance(ping_interval, tuple) else 0)')
+c.ensures('limits-and-switches-as-configured',
+          'self.max_http_buffer_size == max_http_buffer_size and '
+          'self.allow_upgrades == allow_upgrades and '
+          'self.http_compression == http_compression and '
+          'self.compression_threshold == compression_threshold and '
+          'self.cors_credentials == cors_credentials and '
+          'self.async_handlers == async_handlers')
+c.ensures('cookie-and-origins-as-configured',
+          'self.cookie == cookie and self.cors_allowed_origins == cors_allowed_origins')
+c.ensures('monitoring-defaults-on',
+          'self.start_service_task == (monitor_clients if monitor_clients is not None else '
+          'self._default_monitor_clients)')
+c.ensures('empty-session-table', 'len(self.sockets) == 0 and len(self.handlers) == 0')
+c.ensures('enabled-transports-valid-and-not-empty',
+          "len(self.transports) > 0 and forall(lambda k: self.transports[k] == 'polling' or "
+          "self.transports[k] == 'websocket', 0, len(self.transports))", props=['C12'])
+c.ensures('all-transports-by-default',
+          "implies(transports is None, self.transports == ['polling', 'websocket'])",
+          props=['C12'])
+c.ensures('a-valid-transport-name-enables-just-that-one',
+          "implies(isinstance(transports, str) and (transports == 'polling' or "
+          "transports == 'websocket'), self.transports == [transports])", props=['C12'])
+c.modifies('self.ping_timeout', 'self.ping_interval', 'self.ping_interval_grace_period',
+           'self.max_http_buffer_size', 'self.allow_upgrades', 'self.http_compression',
+           'self.compression_threshold', 'self.cookie', 'self.cors_allowed_origins',
+           'self.cors_credentials', 'self.async_handlers', 'self.sockets', 'self.handlers',
+           'self.log_message_keys', 'self.start_service_task', 'self.service_task_handle',
+           'self.service_task_event', 'self.transports')
+c.loop(1, index='i', invariants=[
+    ('kept-are-valid', "forall(lambda k: comp[k] == 'polling' or comp[k] == 'websocket', 0, "
+     "len(comp))"),
+    ('a-valid-first-element-is-kept-first',
+     "implies(i >= 1 and (xs[0] == 'polling' or xs[0] == 'websocket'), "
+     "len(comp) >= 1 and comp[0] == xs[0])")], elem_ty=STR)
